@@ -61,10 +61,7 @@ func (cm *Committer) commit(block *hotstuff.Block) error {
 		return err
 	}
 
-	forkedBlocks := cm.blockchain.PruneToHeight(
-		cm.viewStates.CommittedBlock().View(),
-		block.View(),
-	)
+	forkedBlocks := cm.blockchain.PruneToHeight(block)
 	for _, block := range forkedBlocks {
 		cm.eventLoop.AddEvent(clientpb.AbortEvent{
 			Batch: block.Commands(),
